@@ -248,8 +248,9 @@ class CircularEquilibrium(Equilibrium):
 
                 self._dqdr = func
             else:
+                # q = a0 + a1*r**2 + a2*r**4 + ..., so dq/dr = 2*a1*r + 4*a2*r**3 + ...
                 coef_list = coef_list[1:]
-                exponent_list = range(1, 2 * len(coef_list) + 1, 2)
+                exponent_list = range(2, 2 * len(coef_list) + 2, 2)
 
                 def func(x):
                     return sum(
